@@ -16,7 +16,7 @@ for _f in sorted(glob.glob(os.path.join(_here, "props", "C*.json"))):
 
 # properties whose check is finished, reviewed and silent on the current tree: only these
 # are claimed in MANIFEST.json (./check can still run the others while they are being built)
-READY = ["C01", "C02", "C03", "C04", "C05", "C06", "C07", "C08", "C09", "C10", "C11", "C12", "C13", "C14", "C17", "C18", "C20"]
+READY = ["C01", "C02", "C03", "C04", "C05", "C06", "C07", "C08", "C09", "C10", "C11", "C12", "C13", "C14", "C15", "C16", "C17", "C18", "C19", "C20"]
 PROPS = ALL_PROPS
 CLAIMED = {k: v for k, v in ALL_PROPS.items() if k in READY}
 
